@@ -233,7 +233,30 @@ static ssize_t tramp_write_header(void *d, const void *in, size_t n) {
     if (t->header.size() == 2) chunk_sink_init(&t->snk, tramp_write_body, t);
     return (ssize_t)k;
 }
+// a double-buffered receiver: the auxiliary descriptor always names the half that is filled next; the source driver flips it to the other half
+// (still holding octets of two transfers ago) as soon as it has filled the current one - what a DMA completion handler does
+struct PingPong { Bytes stream; size_t pos = 0; uint8_t half[2][8]; int cur = 0; ByteBuffer aux; Bytes got; size_t per = 8; };
+static ssize_t pp_read(void *d, void *out, size_t n) {
+    PingPong *p = (PingPong *)d;
+    if (p->pos >= p->stream.size()) return -ENODATA;
+    size_t k = std::min(n, std::min(p->per, p->stream.size() - p->pos));
+    memcpy(out, p->stream.data() + p->pos, k); p->pos += k;
+    p->cur ^= 1; p->aux.data = p->half[p->cur];
+    return (ssize_t)k;
+}
+static ssize_t pp_write(void *d, const void *in, size_t n) { PingPong *p = (PingPong *)d; p->got.insert(p->got.end(), (const uint8_t *)in, (const uint8_t *)in + n); return (ssize_t)n; }
 static void trampolines() {
+    for (size_t n : {(size_t)1, (size_t)5, (size_t)8, (size_t)9, (size_t)16, (size_t)29}) for (size_t per : {(size_t)8, (size_t)3}) {
+        std::string rep = vp::fmt("trampoline pingpong %zu %zu\n", n, per);
+        vp::CaseScope scope([&] { return rep; });
+        PingPong p; p.stream = stream_of(n); p.per = per; memset(p.half, 0x99, sizeof p.half);
+        p.aux.data = p.half[0]; p.aux.size = 8; p.aux.offset = 0; p.aux.used = 8;   // the designated region is [offset, used)
+        Source src; Sink snk; chunk_source_init(&src, pp_read, &p); chunk_sink_init(&snk, pp_write, &p);
+        size_t moved = 0; ssize_t r = 0;
+        for (int guard = 0; guard < 64; guard++) { r = sts_some_aux(&src, &snk, &p.aux); if (r <= 0) break; moved += (size_t)r; }
+        vp::count(); vp::nontrivial(vp::mix(n * 16 + per, 919191)); vp::cls("source-driver-flips-the-auxiliary-descriptor");
+        if (moved != n || p.got != p.stream) vp::fail("trampoline:pingpong-aux", vp::fmt("double-buffered pump with sts_some_aux: %zu of %zu octets reported, sink received %s of %s", moved, n, vp::hex(p.got).c_str(), vp::hex(p.stream).c_str()), rep);
+    }
     for (size_t n : {(size_t)1, (size_t)2, (size_t)3, (size_t)4, (size_t)8, (size_t)11}) {
         std::string rep = vp::fmt("trampoline %zu\n", n);
         vp::CaseScope scope([&] { return rep; });
